@@ -24,9 +24,12 @@ import mir2smt
 from mir2smt import Unsupported, lit
 
 VERIF = os.path.dirname(os.path.dirname(os.path.abspath(__file__)))
-BUILD = os.path.join(VERIF, ".build")
-REPLAYS = os.path.join(VERIF, "replays")
-REPLAY_CRATE = os.path.join(VERIF, "replay")
+REPO = os.environ.get("VERIF_REPO", "/repo")
+ALT = REPO != "/repo"
+BUILD = os.environ.get("VERIF_BUILD") or os.path.join(VERIF, ".build")
+REPLAYS = os.path.join(BUILD, "replays") if ALT else os.path.join(VERIF, "replays")
+REPLAY_SRC = os.path.join(VERIF, "replay")
+REPLAY_CRATE = os.path.join(BUILD, "replay-crate") if ALT else REPLAY_SRC
 
 SOLVERS = [
     ("cvc5", lambda f, t: ["cvc5", "--lang", "smt2", "--tlimit=%d" % (t * 1000), f]),
@@ -50,9 +53,16 @@ def native_binary(log):
         return _native_bin
     env = dict(os.environ, CARGO_NET_OFFLINE="true", RUSTFLAGS="--cfg allsorts_verif",
                CARGO_TARGET_DIR=os.path.join(BUILD, "replay-target"))
+    import shutil
+    if ALT:
+        if os.path.exists(REPLAY_CRATE):
+            shutil.rmtree(REPLAY_CRATE)
+        os.makedirs(REPLAY_CRATE)
+        shutil.copytree(os.path.join(REPLAY_SRC, "src"), os.path.join(REPLAY_CRATE, "src"))
+        toml = open(os.path.join(REPLAY_SRC, "Cargo.toml")).read().replace('path = "/repo"', 'path = "%s"' % REPO)
+        open(os.path.join(REPLAY_CRATE, "Cargo.toml"), "w").write(toml)
     try:
-        import shutil
-        shutil.copyfile("/repo/Cargo.lock", os.path.join(REPLAY_CRATE, "Cargo.lock"))
+        shutil.copyfile(os.path.join(REPO, "Cargo.lock"), os.path.join(REPLAY_CRATE, "Cargo.lock"))
     except OSError:
         pass
     p = subprocess.run(["cargo", "build", "--offline"], cwd=REPLAY_CRATE, env=env,
@@ -478,8 +488,8 @@ def run_property(prop, tier, seed, only, log):
     res = {"obligations": [], "machinery_problem": False}
     t0 = time.time()
     try:
-        text = mir2smt.dump_mir()
-        mir = mir2smt.Mir(text)
+        text = mir2smt.dump_mir(REPO)
+        mir = mir2smt.Mir(text, REPO)
         kernels = BUILDERS[prop](mir)
     except Unsupported as e:
         log("INCONCLUSIVE: property=%s engine=mir2smt kernel cannot be encoded: %s" % (prop, e))
@@ -490,6 +500,7 @@ def run_property(prop, tier, seed, only, log):
         log("INCONCLUSIVE: property=%s engine=mir2smt failed: %r" % (prop, e))
         res["obligations"].append({"harness": prop.lower() + "_smt_kernels", "engine": "smt", "status": "inconclusive",
                                    "why": "mir2smt error: %r" % (e,), "queries": 0, "time_s": time.time() - t0})
+        res["machinery_problem"] = True
         return res
     binary = native_binary(log)
     if binary is None:
